@@ -46,7 +46,8 @@ func (nopLogger) Printf(string, ...interface{}) {}
 func init() { gobinlog.SetLogger(nopLogger{}) }
 
 // waitBound is "bounded time" (observed latencies are milliseconds).
-var waitBound = 5 * time.Second
+var waitBound = 8 * time.Second
+var stuckCount int
 
 // ---- trace recorder ---------------------------------------------------------------------
 
@@ -559,6 +560,8 @@ func (rs *runState) runAttempt(att int, a AttemptPlan, dsnOverride string) {
 	}
 
 	callerG := goid()
+	var hmu sync.Mutex
+	handled := 0
 	inHandler := 0
 	idx := 0
 	handler := func(t *gobinlog.Transaction) error {
@@ -607,6 +610,9 @@ func (rs *runState) runAttempt(att int, a AttemptPlan, dsnOverride string) {
 			err = fmt.Errorf("vf: handler failure at %d", k)
 		}
 		rec.Emit(M{"ev": "handlerReturn", "att": att, "k": k, "res": errJ(err)})
+		hmu.Lock()
+		handled++
+		hmu.Unlock()
 		inHandler--
 		select {
 		case txDone <- k:
@@ -669,7 +675,20 @@ func (rs *runState) runAttempt(att int, a AttemptPlan, dsnOverride string) {
 				// after earlier attempts): end the idle stream by cancellation anyway
 				time.Sleep(100 * time.Millisecond)
 			} else {
-				time.Sleep(30 * time.Millisecond)
+				// everything was sent: give the parser time to consume it (until the handler has been called once per
+				// committing unit served, bounded), then cancel
+				want := nCommitsBefore(sc.Log, rs.streamerPosGuess, 1<<30)
+				limit := time.Now().Add(waitBound)
+				for time.Now().Before(limit) {
+					hmu.Lock()
+					n := handled
+					hmu.Unlock()
+					if n >= want {
+						break
+					}
+					time.Sleep(time.Millisecond)
+				}
+				time.Sleep(10 * time.Millisecond)
 			}
 			doCancel("end")
 			release()
@@ -684,6 +703,10 @@ func (rs *runState) runAttempt(att int, a AttemptPlan, dsnOverride string) {
 	el := time.Since(t0)
 	if !returned {
 		rec.Emit(M{"ev": "streamReturn", "att": att, "returned": false, "res": errJ(nil), "ms": int(el / time.Millisecond)})
+		// once several calls have been seen stuck the verdict is settled; keep the rest of the run short
+		if stuckCount++; stuckCount >= 3 && waitBound > 1500*time.Millisecond {
+			waitBound = 1500 * time.Millisecond
+		}
 		release()
 		doCancel("giveup")
 		// Stream is stuck (already recorded). Try to get the goroutine back so that the run can go on: drop the
@@ -718,6 +741,9 @@ func (rs *runState) runAttempt(att int, a AttemptPlan, dsnOverride string) {
 			rec.Emit(M{"ev": "errorReturn", "att": att, "call": call, "returned": true, "res": errJ(e)})
 		case <-time.After(waitBound):
 			rec.Emit(M{"ev": "errorReturn", "att": att, "call": call, "returned": false, "res": errJ(nil)})
+			if stuckCount++; stuckCount >= 6 && waitBound > 1500*time.Millisecond {
+				waitBound = 1500 * time.Millisecond
+			}
 			call = 3
 		}
 	}
